@@ -113,7 +113,7 @@ func lemmaAcceptSetM3(pad iso9797M3Padding, s []byte) []byte {
 //@   loop 1 invariant onlychanged(ret[len(src):])
 //@   loop 1 decreases overhead - i
 
-//@ func (pkcs7Padding).Unpad property C18
+//@ func (pkcs7Padding).Unpad property C18,C13
 //@   requires 1 <= pad && pad <= 255
 //@   ensures err == nil ==> len(src) > 0 && len(src) % pad == 0
 //@   ensures err == nil ==> sameslice(result, src[:len(result)]) && len(result) < len(src) && len(src) - len(result) <= pad
@@ -138,7 +138,7 @@ func lemmaAcceptSetM3(pad iso9797M3Padding, s []byte) []byte {
 //@   ensures cap(src) < len(result) ==> fresh(result)
 //@   modifies src[len(src)..cap(src)]
 
-//@ func (ansiX923Padding).Unpad property C18
+//@ func (ansiX923Padding).Unpad property C18,C13
 //@   requires 1 <= pad && pad <= 255
 //@   ensures err == nil ==> len(src) > 0 && len(src) % pad == 0
 //@   ensures err == nil ==> sameslice(result, src[:len(result)]) && len(result) < len(src) && len(src) - len(result) <= pad
@@ -164,7 +164,7 @@ func lemmaAcceptSetM3(pad iso9797M3Padding, s []byte) []byte {
 //@   ensures cap(src) < len(result) ==> fresh(result)
 //@   modifies src[len(src)..cap(src)]
 
-//@ func (iso9797M2Padding).Unpad property C18,C19
+//@ func (iso9797M2Padding).Unpad property C18,C19,C13
 //@   requires 1 <= pad && pad <= 255
 //@   ensures err == nil ==> len(src) > 0 && len(src) % pad == 0
 //@   ensures err == nil ==> sameslice(result, src[:len(result)]) && len(result) < len(src) && len(src) - len(result) <= pad
@@ -199,7 +199,7 @@ func lemmaAcceptSetM3(pad iso9797M3Padding, s []byte) []byte {
 //@   ensures cap(src) < len(result) ==> fresh(result)
 //@   modifies src[0..cap(src)]
 
-//@ func (iso9797M3Padding).Unpad property C18,C19
+//@ func (iso9797M3Padding).Unpad property C18,C19,C13
 //@   requires 8 <= pad && pad <= 255
 //@   ensures err == nil ==> len(src) >= 2 * pad && len(src) % pad == 0
 //@   ensures err == nil ==> sameslice(result, src[pad : pad + len(result)])
